@@ -57,6 +57,53 @@ package keeper
 //@   ensures removed:    err == nil ==> nftTokens == del(old(nftTokens), denomID, tokenID)
 //@ end
 
+// A class is filed with exactly the creator and the two restriction flags it was issued with (the flags decide who may
+// mint into it and whether its tokens may be edited: C14), under a free id, and no other class changes.
+//@ define issuedAs(cl, id, name, schema, symbol, creatorStr, mintR, updateR) = cl.Id == id && cl.Name == name && cl.Symbol == symbol
+//@        && DMETA(cl).Creator == creatorStr && DMETA(cl).Schema == schema && DMETA(cl).MintRestricted == mintR && DMETA(cl).UpdateRestricted == updateR
+//@ func Keeper.SaveDenom(ctx, id, name, schema, symbol, creator, mintRestricted, updateRestricted, description, uri, uriHash, data)
+//@   property C14
+//@   returns err
+//@   modifies nftClasses
+//@   ensures fresh:  err == nil ==> !old(has(nftClasses, id))
+//@   ensures stored: err == nil ==> has(nftClasses, id) && nftClasses == set(old(nftClasses), id, get(nftClasses, id))
+//@        && issuedAs(get(nftClasses, id), id, name, schema, symbol, bech(creator), mintRestricted, updateRestricted)
+//@   ensures rejected: err != nil ==> nftClasses == old(nftClasses)
+//@ end
+//@ func LegacyKeeper.IssueDenom(ctx, id, name, schema, symbol, creator, mintRestricted, updateRestricted)
+//@   property C14
+//@   returns err
+//@   modifies nftClasses
+//@   ensures stored: err == nil ==> !old(has(nftClasses, id)) && has(nftClasses, id) && nftClasses == set(old(nftClasses), id, get(nftClasses, id))
+//@        && issuedAs(get(nftClasses, id), id, name, schema, symbol, bech(creator), mintRestricted, updateRestricted)
+//@ end
+//@ func Keeper.IssueDenom(goCtx, msg)
+//@   property C14
+//@   returns resp, err
+//@   modifies nftClasses
+//@   ensures stored: err == nil ==> !old(has(nftClasses, msg.Id)) && has(nftClasses, msg.Id) && nftClasses == set(old(nftClasses), msg.Id, get(nftClasses, msg.Id))
+//@        && issuedAs(get(nftClasses, msg.Id), msg.Id, msg.Name, msg.Schema, msg.Symbol, msg.Sender, msg.MintRestricted, msg.UpdateRestricted)
+//@ end
+
+// Genesis import re-creates EVERY listed class - with or without tokens - under its creator and restriction flags: a
+// class that vanished on import could be re-issued by anybody without the restriction (C14).
+//@ func Keeper.SaveCollection(ctx, collection)
+//@   property C14
+//@   returns err
+//@   modifies nftTokens, nftOwner
+//@   invariant #1 idx: rangeindex >= 0 - 1 && rangeindex < len(collection.NFTs)
+//@ end
+//@ define importedAs(cl, dn) = issuedAs(cl, dn.Id, dn.Name, dn.Schema, dn.Symbol, dn.Creator, dn.MintRestricted, dn.UpdateRestricted)
+//@ func Keeper.InitGenesis(ctx, data)
+//@   property C14
+//@   modifies nftClasses, nftTokens, nftOwner
+//@   invariant #1 idx:  rangeindex >= 0 - 1 && rangeindex < len(data.Collections)
+//@   invariant #1 done: forall j:Int :: 0 <= j && j <= rangeindex ==> has(nftClasses, data.Collections[j].Denom.Id)
+//@                         && importedAs(get(nftClasses, data.Collections[j].Denom.Id), data.Collections[j].Denom)
+//@   ensures classes_imported: forall j:Int :: 0 <= j && j < len(data.Collections) ==> has(nftClasses, data.Collections[j].Denom.Id)
+//@                         && importedAs(get(nftClasses, data.Collections[j].Denom.Id), data.Collections[j].Denom)
+//@ end
+
 //@ func Keeper.TransferDenomOwner(ctx, denomID, srcOwner, dstOwner)
 //@   property C14
 //@   returns err
